@@ -1632,6 +1632,15 @@ pub fn run_c07(w: &mut W) {
                 fs.insert(0, tf);
                 w.rep.count("orphan_packets_that_also_redefine_a_template", 1);
             }
+            if !reserved_v9 && reason == 0 && rng.chance(1, 5) {
+                // the orphan's own template follows it *in the same packet*: flowsets are decoded in
+                // order, so when the data is reached the parser holds no template for it
+                if let Some(V9FlowSet::Data { tmpl, .. }) = &data_fs_v9 {
+                    let at = fs.iter().position(|f| f.id() == wid).map(|i| i + 1).unwrap_or(fs.len());
+                    fs.insert(at, V9FlowSet::Template { templates: vec![tmpl.clone()], padding: vec![] });
+                    w.rep.count("orphans_followed_by_their_template_in_the_same_packet", 1);
+                }
+            }
             let before = control.unwrap_or(before);
             let mut pkt = shadow.v9_wrap(&mut rng, &cfg, fs);
             if reserved_v9 {
